@@ -1,6 +1,7 @@
 package main
 
 import (
+	"go/token"
 	"go/types"
 	"sort"
 	"strings"
@@ -257,6 +258,11 @@ func (p *Program) heldUpward(site ssa.Instruction, depth int, trail map[*ssa.Fun
 			merge(lockState{})
 		}
 		for _, cs := range sites {
+			// compiler-generated promotion wrappers of unexported methods ((*wallet.secretSource).lock for the embedded
+			// *waddrmgr.Manager) cannot be named outside the defining package and have no callers: not a call chain
+			if w := cs.Parent(); w.Synthetic != "" && !token.IsExported(w.Name()) && len(p.callers(w)) == 0 {
+				continue
+			}
 			if _, isGo := cs.(*ssa.Go); isGo {
 				why = append(why, "started as goroutine at "+p.Pos(cs.Pos()))
 				merge(lockState{})
